@@ -8,7 +8,7 @@ read groups and programs through any pointer the caller may hold — stale ones 
 MergeHeaders, field edits), executed by `step` from the empty world.  `E : Ext` (date and URI parsing) is
 arbitrary.
 -/
-import Hts.Lemmas.HeaderView
+import Hts.Lemmas.HeaderApi
 namespace Hts.Props.C07
 open Hts.Model.Header
 
@@ -16,12 +16,8 @@ open Hts.Model.Header
 item is owned by `h`, and the name table is exactly `{name_i ↦ i}` (see `TabInv`) -/
 def HInv (w : World) (h : Nat) : Prop := KindInv w.refs h ∧ KindInv w.rgs h ∧ KindInv w.pgs h
 
-theorem hinv_of_winv {w : World} (hw : WInv w) {h : Nat} (hh : h < w.hdrs.length) : HInv w h := by
-  have e1 : ∃ t, w.refs.tabs[h]? = some t := ⟨w.refs.tabs[h]'(by rw [hw.lr]; exact hh), by simp [hw.lr, hh]⟩
-  have e2 : ∃ t, w.rgs.tabs[h]? = some t := ⟨w.rgs.tabs[h]'(by rw [hw.lg]; exact hh), by simp [hw.lg, hh]⟩
-  have e3 : ∃ t, w.pgs.tabs[h]? = some t := ⟨w.pgs.tabs[h]'(by rw [hw.lp]; exact hh), by simp [hw.lp, hh]⟩
-  obtain ⟨t1, h1⟩ := e1; obtain ⟨t2, h2⟩ := e2; obtain ⟨t3, h3⟩ := e3
-  exact ⟨⟨t1, h1, hw.refs.tab h t1 h1⟩, ⟨t2, h2, hw.rgs.tab h t2 h2⟩, ⟨t3, h3, hw.pgs.tab h t3 h3⟩⟩
+theorem hinv_of_winv {w : World} (hw : WInv w) {h : Nat} (hh : h < w.hdrs.length) : HInv w h :=
+  kinds_of_winv hw hh
 
 /-! ### the invariant is established by NewHeader and kept by every operation -/
 
@@ -152,6 +148,86 @@ theorem edits_never_panic (E : Ext) (w : World) (hw : WInv w) (op : Op)
     · simp
   case cl h =>
     simp only [step]; split <;> simp
+
+/-! ## Part 2: serialisation round trips
+
+`E : Ext` are the external parsers: `E.parseDate` = `parseISO8601` then `Format`, `E.parseUri` = `url.Parse`, the
+scheme rewriting of the @SQ parser, then `String()`.  A date held by a read group is its canonical text, i.e. a
+fixed point of `E.parseDate` (the law assumed of package `time`: `Format ∘ Parse ∘ Format = Format`).
+
+"Built through the API" (`ApiBuilt`): no tab / line feed / carriage return in any name or value (comments may hold
+tabs); a version is present whenever any @HD field is set; sort and group order are one of the four constants;
+lengths and insert sizes are in range; an MD5 is 16 bytes; extra tags are distinct two-byte tags other than the ones
+the library has a field for. -/
+
+/-- THE FULL STATEMENT (not a theorem: it is false, see `text_roundtrip_witness`): for every header built through
+the API, parsing its text into a fresh header succeeds and exposes equal values -/
+def text_roundtrip_full : Prop :=
+  ∀ (E : Ext) (w : World), WInv w → ∀ h, h < w.hdrs.length → ApiBuilt E (view w h) →
+    ∃ w', unmarshalText E (pushHeader w {}) w.hdrs.length (marshalText w h) = (w', .ok) ∧
+      view w' w.hdrs.length = view w h
+
+/-- text round trip, with the excluding hypothesis explicit: every URI already has the form the parser produces.
+Parsing the text of the header into a fresh header succeeds; the new header exposes equal values (version, orders,
+extra tags, comments, every reference / read group / program with its id, name and fields), hence serialises to
+identical text and binary. -/
+theorem text_roundtrip_partial (E : Ext) (w : World) (hw : WInv w) (h : Nat) (hh : h < w.hdrs.length)
+    (api : ApiBuilt E (view w h)) (uc : UriCanon E (view w h)) :
+    ∃ w', unmarshalText E (pushHeader w {}) w.hdrs.length (marshalText w h) = (w', .ok) ∧ WInv w' ∧
+      view w' w.hdrs.length = view w h ∧
+      marshalText w' w.hdrs.length = marshalText w h ∧ marshalBinary w' w.hdrs.length = marshalBinary w h := by
+  obtain ⟨w', h1, h2, h3, _⟩ := text_roundtrip_view E w hw (view w h) (wfview_of E hw hh api uc)
+  exact ⟨w', h1, h2, h3, by simp only [marshalText, h3], by simp only [marshalBinary, h3]⟩
+
+/-- binary round trip (DecodeBinary ∘ EncodeBinary), same excluding hypothesis, sizes within the int32 fields of the
+format: the decoded header exposes equal values, hence serialises to identical text and binary -/
+theorem binary_roundtrip_partial (E : Ext) (w : World) (hw : WInv w) (h : Nat) (hh : h < w.hdrs.length)
+    (api : ApiBuilt E (view w h)) (uc : UriCanon E (view w h))
+    (hs1 : ((marshalText w h).length : Int) < 2147483648) (hs2 : ((view w h).refs.length : Int) < 2147483648)
+    (hs3 : ∀ r ∈ (view w h).refs, (r.2.1.length : Int) + 1 < 2147483648) :
+    ∃ w', decodeBinary E (pushHeader w {}) w.hdrs.length (marshalBinary w h) = (w', .ok) ∧ WInv w' ∧
+      view w' w.hdrs.length = view w h ∧
+      marshalText w' w.hdrs.length = marshalText w h ∧ marshalBinary w' w.hdrs.length = marshalBinary w h := by
+  obtain ⟨w', h1, h2, h3⟩ := binary_roundtrip_view E w hw (view w h) (wfview_of E hw hh api uc) hs1 hs2 hs3
+  exact ⟨w', h1, h2, h3, by simp only [marshalText, h3], by simp only [marshalBinary, h3]⟩
+
+def binary_roundtrip_full : Prop :=
+  ∀ (E : Ext) (w : World), WInv w → ∀ h, h < w.hdrs.length → ApiBuilt E (view w h) →
+    ((marshalText w h).length : Int) < 2147483648 → ((view w h).refs.length : Int) < 2147483648 →
+    (∀ r ∈ (view w h).refs, (r.2.1.length : Int) + 1 < 2147483648) →
+    ∃ w', decodeBinary E (pushHeader w {}) w.hdrs.length (marshalBinary w h) = (w', .ok) ∧
+      view w' w.hdrs.length = view w h
+
+/-! ### the counterexample to the full statements (defect #26, recorded as a known finding): a reference built
+through the API with the URI "/data/a.fa" — its text `UR:/data/a.fa` parses back as `UR:file:///data/a.fa` -/
+
+theorem text_roundtrip_witness : ¬ text_roundtrip_full := by
+  intro hfull
+  obtain ⟨w', hu, hv⟩ := hfull goExt wW wW_inv 0 (by decide) wW_api
+  have h1 := wW_parse
+  rw [hu, hv, wW_view] at h1
+  revert h1; decide
+
+theorem binary_roundtrip_witness : ¬ binary_roundtrip_full := by
+  intro hfull
+  obtain ⟨w', hu, hv⟩ := hfull goExt wW wW_inv 0 (by decide) wW_api (by decide) (by decide)
+    (by rw [wW_view]; intro r hr; simp only [List.mem_singleton] at hr; subst hr; decide)
+  have h1 := wW_decode
+  rw [hu, hv, wW_view] at h1
+  revert h1; decide
+
+/-! ### non-vacuity of the round-trip theorems (tests): a header with a version, sort order, a reference with MD5,
+URI and an extra tag, a read group with a date in a non-UTC zone and an insert size, a program, a comment with a tab -/
+
+set_option maxRecDepth 100000 in
+/-- the hypotheses of `text_roundtrip_partial` / `binary_roundtrip_partial` are satisfiable by a non-trivial header,
+and the conclusion can be observed on it -/
+example : ∃ w', unmarshalText goExt (pushHeader wE {}) wE.hdrs.length (marshalText wE 0) = (w', .ok) ∧ WInv w' ∧
+    view w' wE.hdrs.length = view wE 0 ∧ marshalText w' wE.hdrs.length = marshalText wE 0 ∧
+    marshalBinary w' wE.hdrs.length = marshalBinary wE 0 :=
+  text_roundtrip_partial goExt wE wE_inv 0 (by decide) wE_api.1 wE_api.2
+set_option maxRecDepth 1000000 in
+example : marshalText wE 0 = exText := by decide
 
 /-! ### non-vacuity (tests): a history with remove-then-add of the same name, a rename through a stale
 pointer, a clone, parsed text, and a merge of three overlapping headers in which a reference is replaced -/
